@@ -708,6 +708,10 @@ class C10(Property):
             quals = [["note", [rng.choice(["a note", "zeta", "Alpha"])]]]
             if rng.random() < 0.5:
                 quals.append(["note", quals.pop()[1] + ["another note"]])
+            if rng.random() < 0.25:
+                # the same note text twice (two identical /note lines in the input)
+                last = quals.pop()
+                quals.append(["note", last[1] + [last[1][0]]])
             if rng.random() < 0.5:
                 quals.insert(0, ["zzz", ["1"]])
                 quals.append(["label", ["lbl"]])
@@ -764,7 +768,7 @@ class C10(Property):
                                                          "transporter", "regulator", "SMCOG1000: thing"]),
                                              rng.choice(self.PRODUCTS) if func == "biosynthetic" else None])
                 if rng.random() < 0.4:
-                    ann["notes"] = ["smCOG tree PNG image: smcogs/x.png"]
+                    ann["notes"] = rng.choice([["smCOG tree PNG image: smcogs/x.png"], ["input note"], ["twice", "twice"]])
             if rng.random() < 0.25:
                 ann["sec_met"] = [[rng.choice(["PKS_KS", "AMP-binding", "LANC_like"]), rng.choice([1.2e-30, 0.0, 3.5e-07]),
                                    rng.choice([250.5, 0.0, 17.0]), rng.choice([5, 120]), "rule-based-clusters"]
@@ -795,7 +799,7 @@ class C10(Property):
                                                 ["GO:0016020", "membrane: integral"], ["GO:0004871", "signal transducer activity"],
                                                 ["GO:0007165", "signal transduction"]], rng.choice([1, 2, 2, 3]))
                 if dom["kind"] == "pfam" and rng.random() < 0.3:
-                    dom["notes"] = rng.choice([["a pfam note"], ["note b", "note a"]])
+                    dom["notes"] = rng.choice([["a pfam note"], ["note b", "note a"], ["same", "same"]])
                     if rng.random() < 0.5:
                         dom["fquals"] = [["inference", ["protein motif:Pfam"]]]
                 case["domains"].append(dom)
@@ -809,7 +813,7 @@ class C10(Property):
                                         "monomers": rng.choice([[], [["mal", "ccmal"]], [["ala", "d-ala"], ["gly", "gly"]]])})
                 if rng.random() < 0.35:
                     # the generic part of a module feature: notes and free qualifiers (D71-C10: they were dropped on reading)
-                    case["modules"][-1]["notes"] = rng.choice([["a module note"], ["note 2", "note 1"]])
+                    case["modules"][-1]["notes"] = rng.choice([["a module note"], ["note 2", "note 1"], ["again", "again"]])
                     if rng.random() < 0.5:
                         case["modules"][-1]["fquals"] = [["experiment", ["by hand"]], ["zz_free", ["1", "2"]]]
             if asdoms and rng.random() < 0.5:
@@ -838,7 +842,7 @@ class C10(Property):
         for _ in range(rng.choice([0, 0, 1])):
             lo = rng.randrange(0, n - 3)
             case["generics"].append({"type": "misc_feature", "loc": simple(lo, lo + 3, rng.choice([1, -1, None])),
-                                     "notes": ["tta leucine codon, possible target for bldA regulation"]})
+                                     "notes": ["tta leucine codon, possible target for bldA regulation"] * rng.choice([1, 1, 2])})
         # ---- areas
         nprot = rng.choice([0, 1, 2, 2, 3, 4])
         for i in range(nprot):
@@ -889,7 +893,10 @@ class C10(Property):
             quals.append(["gene", ["g" + name]])
         if rng.random() < 0.1:
             quals.append(["pseudo", [""]])             # a valueless qualifier as the GenBank parser delivers it
-        case["input"].append({"type": "gene", "loc": loc, "quals": [list(q) for q in quals]})
+        gene_quals = [list(q) for q in quals]
+        if rng.random() < 0.15:
+            gene_quals.append(["note", ["gene note"] * rng.choice([1, 2])])
+        case["input"].append({"type": "gene", "loc": loc, "quals": gene_quals})
         cds_quals = [list(q) for q in quals if q[0] != "pseudo"]
         if rng.random() < 0.1:
             cds_quals.append(["ribosomal_slippage", [""]])
@@ -902,7 +909,7 @@ class C10(Property):
         if rng.random() < 0.4:
             cds_quals.append(["product", ["a hypothetical protein"]])
         if rng.random() < 0.3:
-            cds_quals.append(["note", ["input note"]])
+            cds_quals.append(["note", ["input note"] * rng.choice([1, 1, 2])])
         if rng.random() < 0.3:
             cds_quals.append(["db_xref", ["GI:12345"]])
         case["input"].append({"type": "CDS", "loc": loc, "quals": cds_quals})
@@ -943,7 +950,7 @@ class C10(Property):
             out["cutoff"] = 0
             out["rule"] = "from external annotation"
         if rng.random() < 0.1:
-            out["notes"] = ["area note"]
+            out["notes"] = ["area note"] * rng.choice([1, 2])
         if out["side"] is None and rng.random() < 0.3:
             # type II PKS analysis annotation: starter units always; elongations with their weights, product classes: each or not
             elong = rng.choice([[], [], ["7 (Score: 120.5; E-value: 1.2e-30)"], ["8|9 (Score: 99.0; E-value: 3e-20)", "7 (Score: 1.0; E-value: 0.5)"]])
